@@ -263,3 +263,170 @@ def generate (s : Shape) : String := String.ofList (renderItems (firstPass s))
 def genHeader : String := "// Generated `JsonShape` file.\nuse serde;\n\n"
 
 end ShapeVerif
+
+namespace ShapeVerif
+open Shape
+
+/-! ### classes of the recorded generator findings (used to recognise known findings, and as the
+side conditions of the `_partial` theorems) -/
+
+mutual
+/-- all `Object`/`OneOf` sub-shapes with their generated names, in traversal order -/
+def namedSubshapes : Shape → List (String × Shape)
+  | .array t _ => namedSubshapes t
+  | .object c o => (String.ofList (shapeName (.object c o)), .object c o) :: namedSubshapesMembers c
+  | .oneOf vs o => (String.ofList (shapeName (.oneOf vs o)), .oneOf vs o) :: namedSubshapesList vs
+  | .tuple es _ => namedSubshapesList es
+  | _ => []
+def namedSubshapesList : List Shape → List (String × Shape)
+  | [] => []
+  | s :: l => namedSubshapes s ++ namedSubshapesList l
+def namedSubshapesMembers : Members → List (String × Shape)
+  | [] => []
+  | (_, s) :: l => namedSubshapes s ++ namedSubshapesMembers l
+end
+
+/-- D16: two different sub-shapes receive the same type name (the name hashes the value types only).
+Top-level optional flags are part of the name, so equal names with different shapes differ in keys
+or nested structure. -/
+def nameClash (s : Shape) : Bool :=
+  let l := namedSubshapes s
+  l.any fun a => l.any fun b => a.1 == b.1 && cmp a.2 b.2 != .eq
+
+def rustKeywords : List String :=
+  ["as", "break", "const", "continue", "crate", "else", "enum", "extern", "false", "fn", "for", "if", "impl",
+   "in", "let", "loop", "match", "mod", "move", "mut", "pub", "ref", "return", "self", "Self", "static",
+   "struct", "super", "trait", "true", "type", "unsafe", "use", "where", "while", "async", "await", "dyn",
+   "abstract", "become", "box", "do", "final", "macro", "override", "priv", "typeof", "unsized", "virtual",
+   "yield", "try"]
+
+def legalIdent (k : String) : Bool :=
+  match k.toList with
+  | [] => false
+  | c :: rest =>
+    (isUp c || isLow c || c == '_') && rest.all (fun d => isUp d || isLow d || isDig d || d == '_')
+      && !rustKeywords.contains k && k != "_"
+
+/-- member names that are legal field names as they stand (snake-casing leaves them unchanged) -/
+def fieldOk (k : String) : Bool := legalIdent k && String.ofList (toSnake k.toList) == k
+
+def distinctStrings : List String → Bool
+  | [] => true
+  | k :: l => !l.contains k && distinctStrings l
+
+mutual
+/-- D17: some object has a member name that is not usable as a field name unchanged, or two member
+names with the same snake form -/
+def badFields : Shape → Bool
+  | .array t _ => badFields t
+  | .object c _ =>
+    !(c.all fun kv => fieldOk kv.1) || !distinctStrings (c.map fun kv => String.ofList (toSnake kv.1.toList))
+      || badFieldsMembers c
+  | .oneOf vs _ => badFieldsList vs
+  | .tuple es _ => badFieldsList es
+  | _ => false
+def badFieldsList : List Shape → Bool
+  | [] => false
+  | s :: l => badFields s || badFieldsList l
+def badFieldsMembers : Members → Bool
+  | [] => false
+  | (_, s) :: l => badFields s || badFieldsMembers l
+end
+
+mutual
+def hasOneOf : Shape → Bool
+  | .array t _ => hasOneOf t
+  | .object c _ => hasOneOfMembers c
+  | .oneOf _ _ => true
+  | .tuple es _ => hasOneOfList es
+  | _ => false
+def hasOneOfList : List Shape → Bool
+  | [] => false
+  | s :: l => hasOneOf s || hasOneOfList l
+def hasOneOfMembers : Members → Bool
+  | [] => false
+  | (_, s) :: l => hasOneOf s || hasOneOfMembers l
+end
+
+mutual
+/-- D19: an empty object (rendered as a unit struct) or a tuple of more than 12 / fewer than 2 elements -/
+def hasDegenerate : Shape → Bool
+  | .array t _ => hasDegenerate t
+  | .object c _ => c.isEmpty || hasDegenerateMembers c
+  | .oneOf vs _ => hasDegenerateList vs
+  | .tuple es _ => es.length > 12 || es.length < 2 || hasDegenerateList es
+  | _ => false
+def hasDegenerateList : List Shape → Bool
+  | [] => false
+  | s :: l => hasDegenerate s || hasDegenerateList l
+def hasDegenerateMembers : Members → Bool
+  | [] => false
+  | (_, s) :: l => hasDegenerate s || hasDegenerateMembers l
+end
+
+/-- D22: the root is an optional object or union (the root item cannot carry the flag) -/
+def rootOptionalNamed : Shape → Bool
+  | .object _ o => o
+  | .oneOf _ o => o
+  | _ => false
+
+mutual
+/-- D17 (compile-time part): the snake form of some member name is not a legal identifier, or two
+members of one object share a snake form -/
+def badSnake : Shape → Bool
+  | .array t _ => badSnake t
+  | .object c _ =>
+    !(c.all fun kv => legalIdent (String.ofList (toSnake kv.1.toList)))
+      || !distinctStrings (c.map fun kv => String.ofList (toSnake kv.1.toList))
+      || badSnakeMembers c
+  | .oneOf vs _ => badSnakeList vs
+  | .tuple es _ => badSnakeList es
+  | _ => false
+def badSnakeList : List Shape → Bool
+  | [] => false
+  | s :: l => badSnake s || badSnakeList l
+def badSnakeMembers : Members → Bool
+  | [] => false
+  | (_, s) :: l => badSnake s || badSnakeMembers l
+end
+
+mutual
+/-- D19 (compile-time part): a tuple of more than 12 elements (`Debug` is not implemented) -/
+def hasWideTuple : Shape → Bool
+  | .array t _ => hasWideTuple t
+  | .object c _ => hasWideTupleMembers c
+  | .oneOf vs _ => hasWideTupleList vs
+  | .tuple es _ => es.length > 12 || hasWideTupleList es
+  | _ => false
+def hasWideTupleList : List Shape → Bool
+  | [] => false
+  | s :: l => hasWideTuple s || hasWideTupleList l
+def hasWideTupleMembers : Members → Bool
+  | [] => false
+  | (_, s) :: l => hasWideTuple s || hasWideTupleMembers l
+end
+
+mutual
+/-- D19 (run-time part): an empty object (a unit struct, which does not read `{}`) -/
+def hasEmptyObject : Shape → Bool
+  | .array t _ => hasEmptyObject t
+  | .object c _ => c.isEmpty || hasEmptyObjectMembers c
+  | .oneOf vs _ => hasEmptyObjectList vs
+  | .tuple es _ => hasEmptyObjectList es
+  | _ => false
+def hasEmptyObjectList : List Shape → Bool
+  | [] => false
+  | s :: l => hasEmptyObject s || hasEmptyObjectList l
+def hasEmptyObjectMembers : Members → Bool
+  | [] => false
+  | (_, s) :: l => hasEmptyObject s || hasEmptyObjectMembers l
+end
+
+def genClasses (s : Shape) : String :=
+  (if nameClash s then "d16 " else "") ++ (if badFields s then "d17 " else "") ++
+  (if badSnake s then "d17s " else "") ++
+  (if hasOneOf s then "d18 " else "") ++ (if hasDegenerate s then "d19 " else "") ++
+  (if hasWideTuple s then "d19t " else "") ++ (if hasEmptyObject s then "d19e " else "") ++
+  (if rootOptionalNamed s then "d22 " else "")
+
+end ShapeVerif
